@@ -408,7 +408,7 @@ def _rng(b, lo, hi):
 def utf8_decode(els, errors):
     """Exact UTF-8 decoder (CPython semantics incl. 'replace' of maximal invalid subparts),
     forking on byte classes."""
-    if errors not in ('strict', 'replace', 'ignore'):
+    if errors not in ('strict', 'replace', 'ignore', 'surrogateescape'):
         raise ZXError('decode errors=%s' % errors)
     out = []
     i, n = 0, len(els)
@@ -418,6 +418,10 @@ def utf8_decode(els, errors):
             raise UnicodeDecodeError('utf-8', b'?', start, end, reason)
         if errors == 'replace':
             out.append(0xFFFD)
+        if errors == 'surrogateescape':
+            for k in range(start, end):
+                b = els[k]
+                out.append(0xDC00 + b if isinstance(b, int) else z3.ZeroExt(CW - 8, b) + 0xDC00)
 
     def ext(b):
         return b if isinstance(b, int) else z3.ZeroExt(CW - 8, b)
